@@ -1,4 +1,5 @@
 import RedactVerif.Proofs.Erase
+import RedactVerif.Proofs.EraseU
 import RedactVerif.Proofs.S.Top
 import RedactVerif.Props.FactsClassify
 /-
@@ -164,6 +165,61 @@ theorem strip_independent_of_classification (env : Env) (he : Er.EnvE env) (n : 
   rw [h1, h2] at hr
   cases hr with
   | ok hq => exact strip_eq_of_ER hq
+
+/-! ### With `Safe(…)` / `Unsafe(…)` wrappers among the operands (fmt-only values)
+
+`Proofs/EraseU.lean` repeats the induction with a relation that does not constrain the overrides at
+all — one run may be under an unsafe override while the other is not — for operands without
+redact-specific dispatch (no SafeFormatter, no SafeMessager, no error hook, no redactable). Hence the
+same statements with wrappers anywhere in the operands; with `Props/C06.lean` this is C06's "in both
+cases the characters are those fmt prints for x". -/
+
+theorem erU_entry : ErU.ER newPP plainPP := by
+  have b0 : ErU.BR Buffer.init Buffer.init := by
+    obtain ⟨a, d, k⟩ := clean_init
+    exact ⟨a, d, d, k, k⟩
+  have b1 := b0.setMode .unsafeEsc .safeEsc
+  rw [setMode_same Buffer.init .unsafeEsc rfl] at b1
+  exact ⟨rfl, rfl, rfl, rfl, rfl, rfl, rfl, by decide,
+    by show (newPP.buf.setMode .safeEsc).mode ≠ _; rw [setMode_mode]; decide, b1⟩
+
+theorem strip_eq_of_ERU {q q' : PP} (h : ErU.ER q q') :
+    stripMarkers q.buf.redactableBytes = stripMarkers q'.buf.redactableBytes := by
+  obtain ⟨a, d, d', k, k'⟩ := h.br
+  have ⟨_, p1, _⟩ := finalize_K _ _ _ k
+  have ⟨_, p2, _⟩ := finalize_K _ _ _ k'
+  unfold stripMarkers Buffer.redactableBytes
+  rw [p1, p2]
+
+theorem sameText_of_relU {r r' : Res} (h : ErU.RelR r r') (hS : S.GR plainPP r') : SameText r r' := by
+  cases h with
+  | ok hq =>
+    rename_i q q'
+    show stripMarkers q.buf.redactableBytes = escapeMarkers q'.buf.buf
+    have g := hS.1 q' rfl
+    obtain ⟨a, d, d', k, k'⟩ := hq.br
+    have pf := plain_finish g.1 ⟨a, d', k'⟩
+    rw [strip_eq_of_ERU hq]
+    unfold stripMarkers escapeMarkers
+    rw [pf.2.2.2.1, stripT_escT]
+  | panic _ _ => rfl
+  | fuel => trivial
+  | unsupported => trivial
+
+/-- **C04 / C06 with wrappers, Sprintf**: whatever `Safe(…)`/`Unsafe(…)` wrappers the operands carry, at
+any depth, the stripped output is the unclassified text with its markers replaced by `?`. -/
+theorem sprintf_wrapped_strip_eq_plain (env : Env) (he : ErU.EnvE env) (hs : S.EnvOk env) (f : List Byte) (hf : FmtCl f)
+    (args : List Val) (ha : ErU.ListE args) (ho : S.ListOk args) :
+    SameText (sprintf env f args) (plainSprintf env f args) :=
+  sameText_of_relU ((ErU.espec_all env he defaultFuel).doPrintf _ _ f args erU_entry hf ha)
+    ((S.spec_all env hs defaultFuel).doPrintf _ f args pre_plainPP ho)
+
+/-- **C04 / C06 with wrappers, Sprint.** -/
+theorem sprint_wrapped_strip_eq_plain (env : Env) (he : ErU.EnvE env) (hs : S.EnvOk env)
+    (args : List Val) (ha : ErU.ListE args) (ho : S.ListOk args) :
+    SameText (sprint env args) (plainSprint env args) :=
+  sameText_of_relU ((ErU.espec_all env he defaultFuel).doPrint _ _ args erU_entry ha)
+    ((S.spec_all env hs defaultFuel).doPrint _ args pre_plainPP ho)
 
 theorem valid_ascii : ∀ c : Byte, c < 0x80 → validRuneB [c] = true := by
   apply byte_forall; decide +kernel
